@@ -568,8 +568,8 @@ class StructureSimilarity(object):
                 'do not specify chainID in compute_lrmsd_pdb2sql')
 
         # create the sql
-        sql_decoy = pdb2sql(self.decoy, sqlfile='decoy.db')
-        sql_ref = pdb2sql(self.ref, sqlfile='ref.db')
+        sql_decoy = pdb2sql(self.decoy)
+        sql_ref = pdb2sql(self.ref)
 
 
         # get the chains
